@@ -261,6 +261,7 @@ class FunctionReport:
         self.input_record = {}
         self.env = None
         self.st0 = None
+        self.trusted_facts = set()
 
 
 def verify_function(c, registry, feas_timeout=1500):
@@ -364,6 +365,7 @@ def verify_function(c, registry, feas_timeout=1500):
         rep.obligations.extend(eng.obligations)
         rep.inlined = set(eng.inlined)
         rep.used_contracts = set(eng.used_contracts)
+        rep.trusted_facts = set(eng.trusted_facts)
     except OutOfSubset as ex:
         rep.status, rep.detail = 'out-of-subset', str(ex)
         rep.obligations = []
@@ -392,8 +394,13 @@ def verify_lemma(lem, registry, feas_timeout=1500):
                                 lem.props, lem.fd.lineno, note='lemma client raised %s' % out[1])
                 ob.inputs = record
                 eng.obligations.append(ob)
+        if outs:
+            ob = Obligation('lemma.%s#canary:false' % lem.name, 'canary', 'false', list(outs[0][0].pc), z3.BoolVal(False), lem.props,
+                            lem.fd.lineno, expect='sat')
+            eng.obligations.append(ob)
         rep.obligations = eng.obligations
         rep.used_contracts = set(eng.used_contracts)
+        rep.trusted_facts = set(eng.trusted_facts)
     except OutOfSubset as ex:
         rep.status, rep.detail = 'out-of-subset', str(ex)
     return rep
